@@ -561,6 +561,13 @@ func (h *httpServerHandler) handleGet(ctx context.Context, w http.ResponseWriter
 		return
 	}
 
+	// Listening streams are bound to a session; without session management there is nothing to attach to.
+	if !h.enableSession || h.sessionManager == nil {
+		w.Header().Set("Allow", "POST")
+		http.Error(w, "GET method not supported when sessions are disabled", http.StatusMethodNotAllowed)
+		return
+	}
+
 	// Check if there's a session ID
 	sessionID := r.Header.Get(httputil.SessionIDHeader)
 	if sessionID == "" {
